@@ -69,11 +69,10 @@ CONSTANTS
                                \*   SignedHeader.ValidateBasic does not validate Commit.BlockID and a malformed PartSetHeader hash
                                \*   PANICS the light client in VerifyCommitLight*; TRUE: it is validated (proposed-fixes/
                                \*   C20-commit-blockid-validate.diff) and such a block is refused like any malformed one
+  Weak_EvidenceBoundByIdOnly,  \* types/evidence.go EvidenceList.Hash: leaves are evidence.Hash() instead of evidence.Bytes(); the hash of
+                               \*   LightClientAttackEvidence covers only the conflicting header hash and the common height
   Weak_SearchProofFromCachedBlock  \* rpc/core TxSearch: the block is re-loaded only when the result's height is ABOVE the
                                \*   cached block's ("don't load the same block for every tx"): wrong for descending pages
-
-M == INSTANCE TMMerkle WITH MaxLeaves <- 0, Weak_NoProofIndexBinding <- FALSE,
-                            Weak_AuntLenUnchecked <- FALSE, Weak_NoLeafCheck <- FALSE
 
 Nil == "nil"
 I2S(i) == ToString(i)
@@ -87,6 +86,43 @@ RECURSIVE SumSeq(_)
 SumSeq(s) == IF Len(s) = 0 THEN 0 ELSE s[1] + SumSeq(Tail(s))
 Last(s) == s[Len(s)]
 
+\* ------------------------------------------------------------------ (0) RFC-6962 Merkle tree (crypto/merkle tree.go, proof.go)
+\* Same constructors as spec/TMMerkle.tla (C10, where the tree itself is the subject); kept local so that
+\* this module depends only on the shape of ITS proof records [total, index, leaf, aunts].
+MkLeafH(x)     == "L(" \o x \o ")"
+MkInnerH(l, r) == "I(" \o l \o "," \o r \o ")"
+RECURSIVE MkPow2Below(_, _)
+MkPow2Below(n, k) == IF 2 * k < n THEN MkPow2Below(n, 2 * k) ELSE k
+MkSplit(n) == MkPow2Below(n, 1)                     \* getSplitPoint: largest power of two strictly below n
+RECURSIVE MkRoot(_)
+MkRoot(leaves) ==
+  IF Len(leaves) = 0 THEN "E()"
+  ELSE IF Len(leaves) = 1 THEN MkLeafH(leaves[1])
+  ELSE LET k == MkSplit(Len(leaves)) IN MkInnerH(MkRoot(SubSeq(leaves, 1, k)), MkRoot(SubSeq(leaves, k + 1, Len(leaves))))
+RECURSIVE MkAunts(_, _)
+MkAunts(leaves, i) ==                               \* aunts of leaf i (0-based), sibling first
+  IF Len(leaves) <= 1 THEN << >>
+  ELSE LET n == Len(leaves)
+           k == MkSplit(n)
+           l == SubSeq(leaves, 1, k)
+           r == SubSeq(leaves, k + 1, n)
+       IN IF i < k THEN Append(MkAunts(l, i), MkRoot(r)) ELSE Append(MkAunts(r, i - k), MkRoot(l))
+MkProof(leaves, i) == [total |-> Len(leaves), index |-> i, leaf |-> MkLeafH(leaves[i + 1]), aunts |-> MkAunts(leaves, i)]
+RECURSIVE MkComputeRoot(_, _, _, _)
+MkComputeRoot(index, total, leaf, aunts) ==         \* computeHashFromAunts; Nil on any structural mismatch
+  IF index >= total \/ index < 0 \/ total <= 0 THEN Nil
+  ELSE IF total = 1 THEN (IF Len(aunts) # 0 THEN Nil ELSE leaf)
+  ELSE IF Len(aunts) = 0 THEN Nil
+  ELSE LET k    == MkSplit(total)
+           last == aunts[Len(aunts)]
+           rest == SubSeq(aunts, 1, Len(aunts) - 1)
+       IN IF index < k
+          THEN LET h == MkComputeRoot(index, k, leaf, rest) IN IF h = Nil THEN Nil ELSE MkInnerH(h, last)
+          ELSE LET h == MkComputeRoot(index - k, total - k, leaf, rest) IN IF h = Nil THEN Nil ELSE MkInnerH(last, h)
+MkVerify(p, root, item) ==                          \* Proof.Verify(root, item) = nil
+  /\ p.total >= 0 /\ p.index >= 0 /\ p.leaf = MkLeafH(item)
+  /\ MkComputeRoot(p.index, p.total, p.leaf, p.aunts) = root
+
 \* ------------------------------------------------------------------ (1) hash model
 \* A hash value is well formed when it is 32 bytes; "" (empty) is allowed by
 \* types.ValidateHash, "BAD" stands for any other length.
@@ -95,20 +131,33 @@ WFHash32(x) == x # "BAD" /\ x # ""
 
 TxHash(tx)      == "T(" \o tx \o ")"                         \* types/tx.go Tx.Hash
 TxHashes(txs)   == MapSeq(txs, TxHash)
-DataHashOf(txs) == M!Root(TxHashes(txs))                      \* Txs.Hash: leaves are the tx hashes
+DataHashOf(txs) == MkRoot(TxHashes(txs))                      \* Txs.Hash: leaves are the tx hashes
 \* types/results.go deterministicResponseDeliverTx: only Code, Data, GasWanted, GasUsed
 ResTerm(r)      == "R(" \o I2S(r.code) \o "," \o r.data \o "," \o I2S(r.gw) \o "," \o I2S(r.gu) \o ")"
-ResultsHash(rs) == M!Root(MapSeq(rs, ResTerm))
+ResultsHash(rs) == MkRoot(MapSeq(rs, ResTerm))
 \* types/validator.go Bytes(): pubkey and voting power only
 ValTerm(v)      == "VAL(" \o v.pk \o "," \o I2S(v.power) \o ")"
-ValsHash(vs)    == M!Root(MapSeq(vs, ValTerm))
+ValsHash(vs)    == MkRoot(MapSeq(vs, ValTerm))
 \* types/params.go HashConsensusParams: Block.MaxBytes and Block.MaxGas only (S19)
 ParamsHash(p)   == "P(" \o I2S(p.max_bytes) \o "," \o I2S(p.max_gas) \o ")"
 \* types/block.go Commit.Hash: the CommitSigs only -- not height, round or block id
 SigTerm(s)      == "S(" \o I2S(s.flag) \o "," \o s.addr \o "," \o I2S(s.ts) \o "," \o s.sig \o ")"
-CommitHash(sigs) == M!Root(MapSeq(sigs, SigTerm))
-EvTerm(e)       == "EV(" \o e \o ")"
-EvHash(evs)     == M!Root(MapSeq(evs, EvTerm))
+CommitHash(sigs) == MkRoot(MapSeq(sigs, SigTerm))
+\* Evidence (types/evidence.go).  One record shape for both kinds:
+\*   ty "dup" DuplicateVoteEvidence : id = the two votes, tvp / vpow / ts the ABCI fields
+\*   ty "lca" LightClientAttackEvidence : id = hash of the conflicting header (height ch), common = common
+\*      height, byz = byzantine validators, tvp, ts, csigs = signatures of the conflicting commit
+\* Header.EvidenceHash is the Merkle root over evidence.Bytes(): the FULL encoding.  evidence.Hash() is
+\* the identity used by the evidence pool: for "lca" it covers (id, common) only.
+EvTerm(e)   == "EV(" \o Join(<<e.ty, e.id, I2S(e.common), I2S(e.ch), Join(e.byz, ","), I2S(e.tvp), I2S(e.vpow),
+                              I2S(e.ts), Join(e.csigs, ",")>>, ";") \o ")"
+EvIdTerm(e) == IF e.ty = "lca" THEN "LCAH(" \o e.id \o "," \o I2S(e.common) \o ")" ELSE "EVH(" \o EvTerm(e) \o ")"
+EvLeaf(e)   == IF Weak_EvidenceBoundByIdOnly THEN EvIdTerm(e) ELSE EvTerm(e)
+EvHash(evs) == MkRoot(MapSeq(evs, EvLeaf))
+\* Evidence.ValidateBasic as far as the modelled fields go
+EvBasic(e)  == e.ty = "lca" => (e.tvp > 0 /\ e.common > 0 /\ e.common <= e.ch)
+\* the piece of evidence a liar adds (a well-formed DuplicateVoteEvidence of his own)
+JunkEv == [ty |-> "dup", id |-> "zz", common |-> 0, ch |-> 0, byz |-> << >>, tvp |-> 10, vpow |-> 10, ts |-> 1000, csigs |-> << >>]
 BidTerm(b)      == b.hash \o "/" \o I2S(b.pst) \o "/" \o b.psh
 ZeroBid         == [hash |-> "", pst |-> 0, psh |-> ""]
 HeaderTerm(H)   == "H(" \o Join(<<I2S(H.vb), I2S(H.va), H.chain, I2S(H.height), I2S(H.time), BidTerm(H.last),
@@ -124,9 +173,9 @@ HeaderHash(C, H) ==
 \* key) whose leaves are what merkle.ValueOp.Run hashes: KVPair(key, sha256(value))
 KVTerm(k, v)    == "K(" \o k \o ",V(" \o v \o "))"
 KVLeaves(kvs)   == Force([i \in 1..Len(kvs) |-> KVTerm(kvs[i].k, kvs[i].v)])
-StoreRoot(kvs)  == M!Root(KVLeaves(kvs))
+StoreRoot(kvs)  == MkRoot(KVLeaves(kvs))
 AppLeaves(sts)  == Force([i \in 1..Len(sts) |-> KVTerm(sts[i].store, StoreRoot(sts[i].kvs))])
-AppHashOf(sts)  == M!Root(AppLeaves(sts))
+AppHashOf(sts)  == MkRoot(AppLeaves(sts))
 
 \* crypto/merkle/proof.go ProofFromProto / Proof.ValidateBasic
 WFProof(p) == p.total >= 0 /\ p.index >= 0 /\ WFHash32(p.leaf) /\ \A i \in 1..Len(p.aunts) : WFHash32(p.aunts[i])
@@ -136,7 +185,7 @@ TxProofValidate(tp, dataHash) ==
   /\ tp.root = dataHash
   /\ tp.proof.index >= 0
   /\ tp.proof.total > 0
-  /\ M!Verify(tp.proof, tp.root, TxHash(tp.data))
+  /\ MkVerify(tp.proof, tp.root, TxHash(tp.data))
 
 \* crypto/merkle/proof_op.go ProofOperators.Verify with ValueOp (proof_value.go) and the
 \* harness' absence operator "c20:absent" (stands for any registered absence op, e.g. IAVL's):
@@ -149,13 +198,13 @@ RunOps(ops, keys, val) ==      \* val = Nil means "no argument" (absence)
            keyok == op.key = "" \/ (Len(keys) > 0 /\ Last(keys) = op.key)
            keys2 == IF op.key = "" THEN keys ELSE SubSeq(keys, 1, Len(keys) - 1)
            fail  == [ok |-> FALSE, val |-> Nil, keys |-> keys]
-           out   == M!ComputeRoot(op.proof.index, op.proof.total, op.proof.leaf, op.proof.aunts)
+           out   == MkComputeRoot(op.proof.index, op.proof.total, op.proof.leaf, op.proof.aunts)
        IN IF ~keyok THEN fail
           ELSE IF op.type = "simple:v"
-               THEN IF val = Nil \/ op.proof.leaf # M!LeafH(KVTerm(op.key, val)) THEN fail
+               THEN IF val = Nil \/ op.proof.leaf # MkLeafH(KVTerm(op.key, val)) THEN fail
                     ELSE RunOps(Tail(ops), keys2, out)
           ELSE \* c20:absent: no argument allowed; the witness leaf must not be a leaf of op.key
-               IF val # Nil \/ op.wit = op.key \/ op.proof.leaf # M!LeafH(KVTerm(op.wit, op.witv)) THEN fail
+               IF val # Nil \/ op.wit = op.key \/ op.proof.leaf # MkLeafH(KVTerm(op.wit, op.witv)) THEN fail
                ELSE RunOps(Tail(ops), keys2, out)
 VerifyOps(ops, root, keys, val) ==
   /\ \A i \in 1..Len(ops) : OpKnown(ops[i]) /\ WFProof(ops[i].proof)        \* DecodeProof
@@ -216,9 +265,9 @@ ModelChain(D) ==
                    lch |-> CommitHash(Cmt(h - 1).sigs), dh |-> DataHashOf(D.blocks[h].txs),
                    vh |-> ValsHash(Vals[h]), nvh |-> ValsHash(Vals[h + 1]), ch |-> ParamsHash(Pars[h]),
                    ah |-> AppHashOf(KV(h - 1)), lrh |-> IF h = 1 THEN "" ELSE ResultsHash(Res(h - 1)),
-                   eh |-> "E()", prop |-> Vals[h][1].addr]
+                   eh |-> EvHash(D.blocks[h].ev), prop |-> Vals[h][1].addr]
   IN [id |-> D.id, tip |-> n,
-      blocks |-> Force([h \in 1..n |-> [header |-> Hdr(h), bid |-> Bid(h), txs |-> D.blocks[h].txs, evidence |-> << >>,
+      blocks |-> Force([h \in 1..n |-> [header |-> Hdr(h), bid |-> Bid(h), txs |-> D.blocks[h].txs, evidence |-> D.blocks[h].ev,
                                   last_commit |-> Cmt(h - 1), commit |-> Cmt(h), vals |-> Vals[h],
                                   params |-> Pars[h], results |-> Res(h), bbe |-> D.blocks[h].bbe,
                                   ebe |-> D.blocks[h].ebe, valupd |-> D.blocks[h].valupd,
@@ -265,7 +314,7 @@ HonestBlock(C, h) == LET b == C.blocks[h] IN
   [block_id |-> b.bid, block |-> [header |-> b.header, txs |-> b.txs, evidence |-> b.evidence, last_commit |-> b.last_commit]]
 HonestTx(C, h, i) == LET b == C.blocks[h] IN       \* rpc/core/tx.go Tx(hash, prove = true)
   [hash |-> TxHash(b.txs[i + 1]), height |-> h, index |-> i, result |-> b.results[i + 1], tx |-> b.txs[i + 1],
-   proof |-> [root |-> DataHashOf(b.txs), data |-> b.txs[i + 1], proof |-> M!Proof(TxHashes(b.txs), i)]]
+   proof |-> [root |-> DataHashOf(b.txs), data |-> b.txs[i + 1], proof |-> MkProof(TxHashes(b.txs), i)]]
 StoreIdx(sts, s) == CHOOSE i \in 1..Len(sts) : sts[i].store = s
 HasKey(kvs, k)   == \E j \in 1..Len(kvs) : kvs[j].k = k
 KeyIdx(kvs, k)   == CHOOSE j \in 1..Len(kvs) : kvs[j].k = k
@@ -274,14 +323,14 @@ HonestQuery(C, h, s, k) ==                          \* the application's Query a
   LET sts == C.blocks[h].kv
       si  == StoreIdx(sts, s)
       kvs == sts[si].kvs
-      sop == VOp(s, M!Proof(AppLeaves(sts), si - 1))
+      sop == VOp(s, MkProof(AppLeaves(sts), si - 1))
       base == [code |-> 0, log |-> "", info |-> "", index |-> 0, key |-> k, height |-> h, cs |-> ""]
   IN IF HasKey(kvs, k)
      THEN LET j == KeyIdx(kvs, k) IN
-          base @@ [value |-> kvs[j].v, ops |-> <<VOp(k, M!Proof(KVLeaves(kvs), j - 1)), sop>>]
+          base @@ [value |-> kvs[j].v, ops |-> <<VOp(k, MkProof(KVLeaves(kvs), j - 1)), sop>>]
      ELSE \* absence: witnessed by the proof of the first leaf of the store (harness convention)
           base @@ [value |-> Nil,
-                   ops |-> <<[type |-> "c20:absent", key |-> k, dkey |-> k, proof |-> M!Proof(KVLeaves(kvs), 0),
+                   ops |-> <<[type |-> "c20:absent", key |-> k, dkey |-> k, proof |-> MkProof(KVLeaves(kvs), 0),
                               wit |-> kvs[1].k, witv |-> kvs[1].v], sop>>]
 HonestResults(C, h) == LET b == C.blocks[h] IN
   [height |-> h, results |-> b.results, bbe |-> b.bbe, ebe |-> b.ebe, valupd |-> b.valupd, parupd |-> b.parupd]
@@ -379,6 +428,7 @@ NewVal(how, old, oth) ==
     [] how = "swap"   -> Force([i \in 1..Len(old) |-> IF i = 1 THEN old[2] ELSE IF i = 2 THEN old[1] ELSE old[i]])
     [] how = "clear"  -> << >>
     [] how = "forge"  -> ForgedVals
+    [] how = "adde"   -> Append(old, JunkEv)
 
 \* replacements tried for a field of a given type
 Hows(ty, old) ==
@@ -390,6 +440,9 @@ Hows(ty, old) ==
     [] ty = "hseq" -> (IF Len(old) > 0 THEN {"drop"} ELSE {}) \cup {"addh"} \cup (IF Len(old) > 1 THEN {"swap"} ELSE {})
     [] ty = "sseq" -> (IF Len(old) > 0 THEN {"drop"} ELSE {}) \cup {"adds"} \cup (IF Len(old) > 1 THEN {"swap"} ELSE {})
     [] ty = "rseq" -> (IF Len(old) > 0 THEN {"drop", "dup"} ELSE {}) \cup (IF Len(old) > 1 THEN {"swap"} ELSE {})
+    [] ty = "intx" -> {"inc", "zero", "neg"}                            \* no transplant (the other answer may hold another kind of evidence)
+    [] ty = "idj"  -> {"sjunk"}                                         \* an identity that cannot be transplanted
+    [] ty = "eseq" -> (IF Len(old) > 0 THEN {"drop"} ELSE {}) \cup {"adde"} \cup (IF Len(old) > 1 THEN {"swap"} ELSE {})
     [] ty = "vseq" -> {"drop", "dup", "swap", "forge"}                 \* the validator set of a light block
     [] ty = "opt"  -> IF Len(old) > 0 THEN {"drop"} ELSE {}          \* a nullable record
 
@@ -413,13 +466,18 @@ MProofFields == {P(<<"total">>, "int"), P(<<"index">>, "int"), P(<<"leaf">>, "ha
 ValFields == {P(<<"addr">>, "id"), P(<<"pk">>, "id"), P(<<"power">>, "int"), P(<<"prio">>, "int")}
 ParamFields == {P(<<f>>, "int") : f \in {"max_bytes", "max_gas", "iota", "ev_age_blocks", "ev_age_dur", "ev_max_bytes"}}
                \cup {P(<<"app_version">>, "uint"), P(<<"pk_types">>, "sseq")}
+EvFields(e) == {P(<<"id">>, "idj"), P(<<"tvp">>, "intx"), P(<<"ts">>, "intx")}
+               \cup (IF e.ty = "lca" THEN {P(<<"common">>, "intx"), P(<<"byz">>, "sseq"), P(<<"csigs">>, "sseq")}
+                                    ELSE {P(<<"vpow">>, "intx")})
 OpFields == {P(<<"type">>, "id"), P(<<"key">>, "id"), P(<<"dkey">>, "id")} \cup Pre(<<"proof">>, MProofFields)
 
 \* EVERY field of the response of kind k (r is the honest response: it fixes the sequence lengths)
 Fields(k, r) ==
   CASE k \in {"Block", "BlockByHash"} ->
          Pre(<<"block_id">>, BidFields) \cup Pre(<<"block", "header">>, HeaderFields)
-         \cup {P(<<"block", "txs">>, "sseq"), P(<<"block", "evidence">>, "sseq")}
+         \cup {P(<<"block", "txs">>, "sseq"), P(<<"block", "evidence">>, "eseq")}
+         \* every field of every piece of evidence: "same header, other body"
+         \cup UNION {Pre(<<"block", "evidence", i>>, EvFields(r.block.evidence[IdxOf[i]])) : i \in Ix(Len(r.block.evidence))}
          \cup {P(<<"block", "txs", i>>, "id") : i \in Ix(Len(r.block.txs))}
          \cup Pre(<<"block", "last_commit">>, CommitFields(r.block.last_commit))
     [] k = "Tx" ->
@@ -461,7 +519,7 @@ Cohere(C, k, r, path) ==
     [] k = "Tx" -> IF path = <<"tx">>
                    THEN [r EXCEPT !.hash = TxHash(r.tx)]
                    ELSE IF path = <<"proof", "data">>
-                   THEN [r EXCEPT !.hash = TxHash(r.proof.data), !.tx = r.proof.data, !.proof.proof.leaf = M!LeafH(TxHash(r.proof.data))]
+                   THEN [r EXCEPT !.hash = TxHash(r.proof.data), !.tx = r.proof.data, !.proof.proof.leaf = MkLeafH(TxHash(r.proof.data))]
                    ELSE r
     [] k = "BlockchainInfo" ->
          IF Len(path) >= 3 /\ path[1] = "metas" /\ path[3] = "header"
@@ -648,6 +706,7 @@ BlockBasic(b) ==           \* types/block.go Block.ValidateBasic
   /\ CommitBasic(b.last_commit)
   /\ b.header.lch = CommitHash(b.last_commit.sigs)
   /\ b.header.dh = DataHashOf(b.txs)
+  /\ \A i \in 1..Len(b.evidence) : EvBasic(b.evidence[i])
   /\ b.header.eh = EvHash(b.evidence)
 \* [repair C20-block-binding] the returned LastCommit is the commit OF the previous block
 LastCommitBound(b) ==
@@ -769,9 +828,12 @@ ConsBlock(C, T, g) ==
   LET h == g.block.header.height IN
   /\ OnChain(C, T, h)
   /\ g.block.header = C.blocks[h].header                     \* = header hash equality (injective)
-  /\ g.block.header.dh = DataHashOf(g.block.txs)
-  /\ g.block.header.lch = CommitHash(g.block.last_commit.sigs)
-  /\ g.block.header.eh = EvHash(g.block.evidence)
+  \* the body is the chain's body, field by field (what DataHash / LastCommitHash / EvidenceHash of the
+  \* verified header commit to; stated on the content so that the oracle does not depend on the hash
+  \* functions the code under test happens to implement -- ChainCoherent checks those separately)
+  /\ g.block.txs = C.blocks[h].txs
+  /\ g.block.evidence = C.blocks[h].evidence
+  /\ g.block.last_commit.sigs = C.blocks[h].last_commit.sigs
   /\ g.block_id = C.blocks[h].commit.bid                     \* hash AND part-set header of the verified commit
   /\ LastCommitBound(g.block)
 \* the inclusion proof proves the returned tx at the returned index under the verified DataHash
@@ -779,7 +841,7 @@ ConsTxProof(C, T, g) ==
   /\ OnChain(C, T, g.height)
   /\ g.proof.root = C.blocks[g.height].header.dh
   /\ g.proof.proof.total > 0 /\ g.proof.proof.index >= 0
-  /\ M!Verify(g.proof.proof, C.blocks[g.height].header.dh, TxHash(g.tx))
+  /\ MkVerify(g.proof.proof, C.blocks[g.height].header.dh, TxHash(g.tx))
   /\ g.proof.data = g.tx
   /\ g.proof.proof.index = g.index
   /\ g.hash = TxHash(g.tx)
